@@ -55,8 +55,10 @@ static std::string op_str(const Op &o) {
 // vector that the operation alphabet can build is a union of whole groups, so the reachable abstract space stays 2^D
 // per register while the concrete vectors get long (this is how vectors with dozens of ones, long tails and
 // interleaved operands are reached without leaving exhaustive search).
-struct GF2Machine {
-    typedef parmcb::SpVecGF2<std::size_t> V;
+// U = the coordinate type (the class is a template over it; the library uses std::size_t, a user may pick a narrower type)
+template<class U>
+struct GF2MachineT {
+    typedef parmcb::SpVecGF2<U> V;
     typedef std::vector<std::vector<std::size_t>> State;     // concrete `ones` per register
     int R, D;                                                // registers, number of groups
     std::vector<std::vector<std::size_t>> group;             // real coordinates of each group (sorted)
@@ -67,18 +69,18 @@ struct GF2Machine {
     std::vector<uint32_t> ref;                               // dense reference over groups
     std::vector<char> unspec;                                // register was moved from: content unspecified until it is overwritten
     std::vector<std::vector<std::size_t>> concrete;          // mask -> sorted real coordinates
-    std::vector<std::set<std::size_t>> sets;                 // mask -> std::set of real coordinates
+    std::vector<std::set<U>> sets;                           // mask -> std::set of real coordinates
     std::string name() const { return "SpVecGF2"; }
 
     // sizes: group sizes; interleaved: real coordinates dealt round-robin instead of consecutively; huge: last group is {2^40}
-    GF2Machine(int R, const std::vector<int> &sizes, bool interleaved, bool huge, const std::string &cfgname) : R(R), D((int) sizes.size()), cfgname(cfgname), ref(R, 0), unspec(R, 0) {
+    GF2MachineT(int R, const std::vector<int> &sizes, bool interleaved, bool huge, const std::string &cfgname) : R(R), D((int) sizes.size()), cfgname(cfgname), ref(R, 0), unspec(R, 0) {
         group.resize(D);
         std::vector<int> left = sizes; std::size_t next = 0; int total = 0; for (int x : sizes) total += x;
-        if (huge) { group[D - 1].push_back(HUGE_COORD); total -= left[D - 1]; left[D - 1] = 0; }
+        if (huge) { group[D - 1].push_back(sizeof(U) >= 8 ? HUGE_COORD : (std::size_t) 0x80000005ul); total -= left[D - 1]; left[D - 1] = 0; }
         if (!interleaved) { for (int c = 0; c < D; ++c) for (int k = 0; k < left[c]; ++k) group[c].push_back(next++); }
         else { int placed = 0; while (placed < total) for (int c = 0; c < D; ++c) if (left[c] > 0) { group[c].push_back(next++); --left[c]; ++placed; } }
         concrete.resize(1u << D); sets.resize(1u << D);
-        for (uint32_t m = 0; m < (1u << D); ++m) { for (int c = 0; c < D; ++c) if (m >> c & 1) for (auto x : group[c]) sets[m].insert(x); concrete[m].assign(sets[m].begin(), sets[m].end()); }
+        for (uint32_t m = 0; m < (1u << D); ++m) { for (int c = 0; c < D; ++c) if (m >> c & 1) for (auto x : group[c]) sets[m].insert((U) x); concrete[m].assign(sets[m].begin(), sets[m].end()); }
         for (int i = 0; i < R; ++i) new (storage[i]) V();
         for (int i = 0; i < R; ++i) for (int c = 0; c < D; ++c) if (group[c].size() == 1) ops.push_back({K_UNIT, i, 0, 0, c});
         for (int i = 0; i < R; ++i) for (long m = 0; m < (1 << D); ++m) ops.push_back({K_SET, i, 0, 0, m});
@@ -88,14 +90,14 @@ struct GF2Machine {
         for (int i = 0; i < R; ++i) for (int j = 0; j < R; ++j) for (int k = 0; k < R; ++k) ops.push_back({K_ADD, i, j, k, 0});
         for (int i = 0; i < R; ++i) ops.push_back({K_CLEAR, i, 0, 0, 0});
     }
-    ~GF2Machine() { for (int i = 0; i < R; ++i) reg(i)->~V(); }
+    ~GF2MachineT() { for (int i = 0; i < R; ++i) reg(i)->~V(); }
 
     // the state carries one extra pseudo-register: the "unspecified" flags (a moved-from register keeps whatever concrete
     // content the move left behind - it is part of the state because later overwriting operations start from it)
     State initial() { State s(R + 1); s[R].assign(R, 0); return s; }
-    State read() { State s(R + 1); for (int i = 0; i < R; ++i) s[i] = reg(i)->ones; for (int i = 0; i < R; ++i) s[R].push_back(unspec[i]); return s; }
+    State read() { State s(R + 1); for (int i = 0; i < R; ++i) s[i].assign(reg(i)->ones.begin(), reg(i)->ones.end()); for (int i = 0; i < R; ++i) s[R].push_back(unspec[i]); return s; }
     uint32_t mask_of(const std::vector<std::size_t> &v) const { uint32_t m = 0; for (int c = 0; c < D; ++c) if (std::binary_search(v.begin(), v.end(), group[c][0])) m |= 1u << c; return m; }
-    void restore(const State &s) { for (int i = 0; i < R; ++i) { reg(i)->~V(); new (storage[i]) V(); reg(i)->ones = s[i]; unspec[i] = (char) s[R][i]; ref[i] = unspec[i] ? 0 : mask_of(s[i]); } }
+    void restore(const State &s) { for (int i = 0; i < R; ++i) { reg(i)->~V(); new (storage[i]) V(); reg(i)->ones.assign(s[i].begin(), s[i].end()); unspec[i] = (char) s[R][i]; ref[i] = unspec[i] ? 0 : mask_of(s[i]); } }
     // an operation is enabled iff every register it READS is specified; registers that are only overwritten may be moved-from
     bool enabled(const Op &o) const {
         switch (o.kind) {
@@ -111,7 +113,7 @@ struct GF2Machine {
     void apply(const Op &o) {
         V *ri = reg(o.i);
         switch (o.kind) {
-        case K_UNIT: ri->~V(); new (storage[o.i]) V(group[o.arg][0]); ref[o.i] = 1u << o.arg; unspec[o.i] = 0; break;
+        case K_UNIT: ri->~V(); new (storage[o.i]) V((U) group[o.arg][0]); ref[o.i] = 1u << o.arg; unspec[o.i] = 0; break;
         case K_SET: ri->~V(); new (storage[o.i]) V(sets[o.arg]); ref[o.i] = (uint32_t) o.arg; unspec[o.i] = 0; break;
         case K_DEFCTOR: ri->~V(); new (storage[o.i]) V(); ref[o.i] = 0; unspec[o.i] = 0; break;
         case K_COPYCTOR: ri->~V(); new (storage[o.i]) V(*reg(o.j)); ref[o.i] = ref[o.j]; unspec[o.i] = 0; break;
@@ -130,7 +132,7 @@ struct GF2Machine {
             if (unspec[i]) continue;
             V &v = *reg(i);
             std::vector<std::size_t> it(v.begin(), v.end());
-            if (it != v.ones) { cls = "iteration"; return "iteration of r" + std::to_string(i) + " differs from its stored coordinates"; }
+            if (it != std::vector<std::size_t>(v.ones.begin(), v.ones.end())) { cls = "iteration"; return "iteration of r" + std::to_string(i) + " differs from its stored coordinates"; }
             for (size_t k = 1; k < it.size(); ++k) if (!(it[k - 1] < it[k])) { cls = "not-canonical"; return "r" + std::to_string(i) + " lists coordinates not in strictly increasing order (" + std::to_string(it[k - 1]) + " before " + std::to_string(it[k]) + ")"; }
             if (it != concrete[ref[i]]) { cls = "wrong-content"; char b[160]; snprintf(b, sizeof b, "r%d lists %zu coordinates, dense model (group mask 0x%x) has %zu, or they differ", i, it.size(), ref[i], concrete[ref[i]].size()); return b; }
             if (v.size() != concrete[ref[i]].size()) { cls = "size"; return "size() of r" + std::to_string(i) + " is wrong"; }
@@ -150,14 +152,18 @@ struct GF2Machine {
     std::string cfg() const { return "class=SpVecGF2;cfg=" + cfgname; }
 };
 
+typedef GF2MachineT<std::size_t> GF2Machine;
+
 // "gf2:R:D" = D plain coordinates plus the huge one; "gf2g:R:s0-s1-..[:i]" = groups of the given sizes, consecutive or interleaved
-static GF2Machine *make_gf2(const std::string &cfg) {
+template<class M>
+static M *make_gf2_t(const std::string &cfg) {
     auto t = vr::split(cfg, ':');
     int Rn = atoi(t[1].c_str());
-    if (t[0] == "gf2") { int D = atoi(t[2].c_str()); return new GF2Machine(Rn, std::vector<int>(D + 1, 1), false, true, cfg); }
+    if (t[0] == "gf2" || t[0] == "gf2u32") { int D = atoi(t[2].c_str()); return new M(Rn, std::vector<int>(D + 1, 1), false, true, cfg); }
     std::vector<int> sizes; for (auto &x : vr::split(t[2], '-')) sizes.push_back(atoi(x.c_str()));
-    return new GF2Machine(Rn, sizes, t.size() > 3 && t[3] == "i", false, cfg);
+    return new M(Rn, sizes, t.size() > 3 && t[3] == "i", false, cfg);
 }
+static GF2Machine *make_gf2(const std::string &cfg) { return make_gf2_t<GF2Machine>(cfg); }
 
 // ------------------------------------------------------------------ F_p machine
 template<class P>
@@ -356,6 +362,7 @@ int main(int argc, char **argv) {
         auto t = vr::split(cfgs[u], ':');
         Totals tot;
         if (t[0] == "gf2" || t[0] == "gf2g") { std::unique_ptr<GF2Machine> m(make_gf2(cfgs[u])); bfs(R, *m, tot, max_states); }
+        else if (t[0] == "gf2u32" || t[0] == "gf2gu32") { std::unique_ptr<GF2MachineT<std::uint32_t>> m(make_gf2_t<GF2MachineT<std::uint32_t>>(cfgs[u])); bfs(R, *m, tot, max_states); }
         else if (t[1] == "int") { FPMachine<int> m(atoi(t[3].c_str()), atoi(t[4].c_str()), atol(t[2].c_str()), "int"); bfs(R, m, tot, max_states); }
         else if (t[1] == "long") { FPMachine<long> m(atoi(t[3].c_str()), atoi(t[4].c_str()), atol(t[2].c_str()), "long"); bfs(R, m, tot, max_states); }
         else { FPMachine<boost::multiprecision::cpp_int> m(atoi(t[3].c_str()), atoi(t[4].c_str()), atol(t[2].c_str()), "cpp_int"); bfs(R, m, tot, max_states); }
